@@ -536,7 +536,9 @@ func (e routeEngine) Gen(r *Rand, tier string) Case {
 
 var junkPatterns = []string{"/x/{id", "/y/id}", "/z/{}", "/a[/b]/c", "/a]", "/a[[b]", "/a[b]]", "/{a}{b}", "/{a}-{b}", "/{:x}", "/{ a : \\d+ }", "/c/{id:(\\d+)}",
 	"/c/{id:(?:a)(b)}", "/c/{id:(?:a|b)+}", "/c/{id:[}", "/c/{id:a{2,1}}", "/c/{id:\\}", "/c/{id:(?i)a}", "/c/{id:(?P<n>a)}", "/b[/(new|old)]", "/f[.(json|xml)]", "/p/a+b", "/p/a*", "/p/(a)", "/p/a|b",
-	"/p/^a$", "/p/\\d", "/{a:.*}/{b:.*}", "/{id}/{id}", "/x/{id:\\d+}/{id}", "/[a]", "[/a]", "/a[/{b}][/{c}]", "/a/{b:[^/]+/c}", "{a}", "/{a", "/a}", "/{a:}", "/{a:(}", "/{a:)}", "/{a:\xff}", "/\xff/{a}", "/é/{a:é+}"}
+	"/p/^a$", "/p/\\d", "/{a:.*}/{b:.*}", "/{id}/{id}", "/x/{id:\\d+}/{id}", "/[a]", "[/a]", "/a[/{b}][/{c}]", "/a/{b:[^/]+/c}", "{a}", "/{a", "/a}", "/{a:}", "/{a:(}", "/{a:)}", "/{a:\xff}", "/\xff/{a}", "/é/{a:é+}",
+	// dotted variable names (the dot is quoted, so the braces stay literal text) next to a capturing group
+	"/dl/{file.name}/{rev.id}/v(\\d+)", "/dl/{file.name}/{rev.id}/{n:(?:v)(\\d+)}", "/dl/{a.b}/(x)", "/dl/{a.b}/{c}/(x)"}
 
 var junkMethods = []string{"DEL", "G", "GET,POST", "get", " post ", "", " ", "PURGE", "GETX", "OPTIONS", "TRACE", "CONNECT", "Head", "gEt", "\tPUT\n"}
 
